@@ -67,6 +67,24 @@ deriving Repr, Inhabited
 structure TCfg where
   base : Cfg
   rootForgetsTickit : Bool := false
+  /-- `tickit_term_observe_sigwinch` resets `tt->next_sigwinch_observer` of the terminal it unlinks
+      (fixes/C08_sigwinch_stale_next.patch) -/
+  sigwinchClearsNext : Bool := false
+  /-- `tickit_term_set_input_fd` forgets the TermKey it destroys (fixes/C08_set_input_fd_termkey.patch) -/
+  setInputFdClearsTermkey : Bool := false
+deriving Repr, Inhabited
+
+/-- A further terminal of the process (`xnew`): only the application refers to it. -/
+structure XTerm where
+  appRefs : Nat := 1
+  freed : Bool := false
+deriving Repr, Inhabited
+
+/-- The SIGWINCH part of `struct TickitTerm`: `observe_winch`, `next_sigwinch_observer` (terminal 0 is the main one,
+    terminal k+1 the k-th further one). -/
+structure SwNode where
+  obs : Bool := false
+  next : Option Nat := none
 deriving Repr, Inhabited
 
 /-- An entry of `t->laters` / `t->timers`: a watch of the application (behaviour record `idx`), or the instance's own
@@ -104,6 +122,13 @@ inductive XOp where
   | itimer (ms : Int) (acts : List TAct)                 -- tickit_watch_timer_after_msec
   | icancel (k : Nat)                                    -- tickit_watch_cancel of the k-th watch
   | itick (toks : List Tok)                              -- bytes into the pipe, flush, tickit_tick(NOHANG|NOSETUP)
+  | mresize (lines cols : Int)                           -- tickit_mockterm_resize
+  | xnew                                                 -- a further terminal (no root window, no input)
+  | xref (k : Nat) | xunref (k : Nat)                    -- tickit_term_ref / tickit_term_unref on it
+  | xobs (k : Nat) (on : Bool)                           -- tickit_term_observe_sigwinch on it
+  | tobs (on : Bool)                                     -- tickit_term_observe_sigwinch on the main terminal
+  | winch                                                -- raise(SIGWINCH)
+  | tsetin                                               -- tickit_term_set_input_fd, the same descriptor again
 deriving Repr, Inhabited
 
 def XOp.isNew : XOp → Bool
@@ -143,9 +168,23 @@ structure Top where
   inputDead : Bool := false
   /-- the root window has outlived the instance and still points to it (`root->tickit`, uncounted) -/
   dangling : Bool := false
+  /-- `tt->lines`, `tt->cols` of the main terminal -/
+  size : Int × Int := (0, 0)
+  /-- the further terminals -/
+  xterms : Array XTerm := #[]
+  /-- SIGWINCH observation: per terminal (0 = the main one), `first_sigwinch_observer`, and whether the handler is
+      installed (`sigaction`) -/
+  sw : Array SwNode := #[{}]
+  swFirst : Option Nat := none
+  swHandler : Bool := false
+  /-- the process has died inside the SIGWINCH machinery (the text of the CRASH line) -/
+  fail : Option String := none
 
-/-- Operations that never reach the terminal driver. -/
+/-- Operations that never reach the terminal driver (window operations other than the flush only queue damage and
+    requests on the root window). -/
 def Op.leavesScreen : Op → Bool
+  | .act .flush => false
+  | .act _ | .win .. | .geom .. | .expose _ | .bind .. | .unbind .. | .setpen .. => true
   | .mdisp .. | .pen | .pref _ | .punref _ | .pset .. | .pdesc .. | .pcopy .. | .pcopyattr .. | .pbind .. | .punbind ..
   | .tref | .tunref | .str _ | .sref _ | .sunref _ | .sget _ | .rb .. | .bref _ | .bunref _ | .btext .. | .berase ..
   | .bskip .. | .bchar .. | .bhline .. | .bclear _ | .breset _ | .bsave _ | .bsavepen _ | .brestore _ | .bsetpen ..
@@ -268,8 +307,135 @@ def withTermRef (top : Top) (f : Top → Out Top) : Out Top := do
 /-- A fresh terminal with its root window. -/
 def newTop (cfg : Cfg) (lines cols : Int) (mock hasFd : Bool) : Out (Top × String) := do
   let (st, r) ← step cfg {} (.newTerm lines cols mock)
-  pure ({ st := st, mock := mock, hasFd := hasFd, screen := if mock then some (RBFlush.MockTerm.new lines cols) else none,
+  pure ({ st := st, mock := mock, hasFd := hasFd, size := (lines, cols), screen := if mock then some (RBFlush.MockTerm.new lines cols) else none,
           tbinds := [⟨1, .rootResize, none, false, []⟩, ⟨2, .rootKey, some .key, false, []⟩, ⟨3, .rootMouse, some .mouse, false, []⟩] }, r)
+
+/-! ## the process-wide list of SIGWINCH observers (`src/term.c`: `first_sigwinch_observer`, `sigwinch`,
+  `tickit_term_observe_sigwinch`, and `tickit_term_destroy` which stops the observation first)
+
+  The list is modelled with its pointers, so that what an un-observed terminal keeps in `next_sigwinch_observer` is
+  there when it is appended again.  The walks are the C loops: reading a link that lies in a freed terminal is the
+  sanitizer's abort, a NULL link where the code expects the terminal is a NULL dereference, and a walk that does not
+  end (the list has become a cycle) is the harness's alarm. -/
+
+def failMem : String := "CRASH exit=1"
+def failHang : String := "CRASH signal=14"
+
+def swFreed (top : Top) (tid : Nat) : Bool :=
+  if tid = 0 then top.st.term.freed else ((top.xterms[tid - 1]?).map (fun (x : XTerm) => x.freed)).getD true
+
+def swNode (top : Top) (tid : Nat) : SwNode := (top.sw[tid]?).getD {}
+
+def swSetNode (top : Top) (tid : Nat) (n : SwNode) : Top := { top with sw := top.sw.setIfInBounds tid n }
+
+/-- `*tailp = v` where `tailp` is `&first_sigwinch_observer` (`none`) or `&p->next_sigwinch_observer`. -/
+def swStore (top : Top) (tailp : Option Nat) (v : Option Nat) : Top :=
+  match tailp with
+  | none => { top with swFirst := v }
+  | some p => swSetNode top p { swNode top p with next := v }
+
+/-- `while(*tailp) tailp = &(*tailp)->next_sigwinch_observer; *tailp = tt;` -/
+def swAppend (top : Top) (tid : Nat) : Nat → Option Nat → Option Nat → Top
+  | 0, _, _ => { top with fail := some failHang }
+  | _ + 1, tailp, none => swStore top tailp (some tid)
+  | fuel + 1, _, some c =>
+    if swFreed top c then { top with fail := some failMem }
+    else swAppend top tid fuel (some c) (swNode top c).next
+
+/-- `while(tailp && *tailp != tt) tailp = &(*tailp)->next_sigwinch_observer; if(tailp) *tailp = (*tailp)->next_sigwinch_observer;` -/
+def swUnlink (top : Top) (tid : Nat) : Nat → Option Nat → Option Nat → Top
+  | 0, _, _ => { top with fail := some failHang }
+  | _ + 1, _, none => { top with fail := some failMem }          -- `&(*tailp)->next…` of NULL, then read
+  | fuel + 1, tailp, some c =>
+    if c = tid then swStore top tailp (swNode top tid).next
+    else if swFreed top c then { top with fail := some failMem }
+    else swUnlink top tid fuel (some c) (swNode top c).next
+
+def swFuel (top : Top) : Nat := top.sw.size + 2
+
+/-- `tickit_term_observe_sigwinch(tt, true)`. -/
+def swObserve (top : Top) (tid : Nat) : Top :=
+  if (swNode top tid).obs then top
+  else
+    let top := swSetNode top tid { swNode top tid with obs := true }
+    let top := if top.swFirst.isNone then { top with swHandler := true } else top
+    swAppend top tid (swFuel top) none top.swFirst
+
+/-- `tickit_term_observe_sigwinch(tt, false)`. -/
+def swUnobserve (tc : TCfg) (top : Top) (tid : Nat) : Top :=
+  if !(swNode top tid).obs then top
+  else
+    let top := swUnlink top tid (swFuel top) none top.swFirst
+    if top.fail.isSome then top
+    else
+      let top := if top.swFirst.isNone then { top with swHandler := false } else top
+      let n := swNode top tid
+      swSetNode top tid { n with obs := false, next := if tc.sigwinchClearsNext then none else n.next }
+
+/-- The signal handler `sigwinch`: `tt->window_changed = 1` along the list. -/
+def swSignal (top : Top) : Top :=
+  let rec go : Nat → Option Nat → Top
+    | 0, _ => { top with fail := some failHang }
+    | _ + 1, none => top
+    | fuel + 1, some c => if swFreed top c then { top with fail := some failMem } else go fuel (swNode top c).next
+  if top.swHandler then go (swFuel top) top.swFirst else top
+
+/-- `tickit_term_destroy` of the main terminal begins with `if(tt->observe_winch) tickit_term_observe_sigwinch(tt, false)`:
+    applied once the lower layers have released the terminal (nothing else looks at the list in between). -/
+def Top.swSync (tc : TCfg) (top : Top) : Top :=
+  if top.fail.isSome then top
+  else if top.st.term.freed && (swNode top 0).obs then swUnobserve tc top 0
+  else top
+
+def heldX (top : Top) (k : Nat) : Bool :=
+  match top.xterms[k]? with
+  | some x => !x.freed && x.appRefs > 0
+  | none => false
+
+/-- `tickit_term_unref` of a further terminal by the application. -/
+def xUnref (tc : TCfg) (top : Top) (k : Nat) : Top :=
+  match top.xterms[k]? with
+  | none => top
+  | some x =>
+    if x.appRefs > 1 then { top with xterms := top.xterms.setIfInBounds k { x with appRefs := x.appRefs - 1 } }
+    else
+      let top := swUnobserve tc top (k + 1)
+      if top.fail.isSome then top
+      else { top with xterms := top.xterms.setIfInBounds k { x with appRefs := 0, freed := true } }
+
+def hText (top : Top) : String := s!"ok h={if top.swHandler then 1 else 0}"
+
+/-! ## `tickit_mockterm_resize` -/
+
+/-- The cells of the mock terminal after a resize: what lies inside both sizes is kept, what is new is blank
+    (`mtd_clear_cells`), the cursor is clamped. -/
+def mockResize (t : RBFlush.MockTerm) (lines cols : Int) : RBFlush.MockTerm :=
+  let old := t.cells
+  let ol := t.lines
+  let oc := t.cols
+  { t with
+    lines := lines, cols := cols
+    cells := fun l c => if 0 ≤ l ∧ l < ol ∧ l < lines ∧ 0 ≤ c ∧ c < oc ∧ c < cols then old l c else {}
+    line := RBFlush.MockTerm.bound t.line 0 (lines - 1)
+    col := RBFlush.MockTerm.bound t.col 0 (cols - 1) }
+
+/-- `on_term_resize` of the root window: `tickit_window_resize`, the two exposures of what has been added. -/
+def onTermResize (top : Top) (lines cols : Int) : Out Top := do
+  let w ← getW top.st 0
+  let oldlines := w.rect.lines
+  let oldcols := w.rect.cols
+  let t ← setGeomT top.st.tree 0 ⟨w.rect.top, w.rect.left, lines, cols⟩
+  if lines > oldlines then exposeWalk t (chainFuel t) 0 (some ⟨oldlines, 0, lines - oldlines, cols⟩)
+  if cols > oldcols then exposeWalk t (chainFuel t) 0 (some ⟨0, oldcols, oldlines, cols - oldcols⟩)
+  pure { top with st := { top.st with tree := t } }
+
+/-- `tickit_term_set_size`: the ON_RESIZE handlers run when the size changes (only the root window binds one). -/
+def termSetSize (top : Top) (lines cols : Int) : Out Top :=
+  if top.size = (lines, cols) then pure top
+  else
+    let top := { top with size := (lines, cols) }
+    withTermRef top (fun top =>
+      if rootAlive top.st && top.tbinds.any (fun b => b.kind = .rootResize) then onTermResize top lines cols else pure top)
 
 /-! ## the toplevel instance -/
 
@@ -316,13 +482,17 @@ def fireItem (cfg : Cfg) (timer : Bool) (top : Top) : WItem → Out Top
   | .app idx acts => runWatch cfg top (if timer then s!"M{idx}" else s!"L{idx}") acts
   | .termTimeout => onTermTimeout cfg top
 
-def xstep (tc : TCfg) (top : Top) : XOp → Out (Top × String) :=
+def xstepCore (tc : TCfg) (top : Top) : XOp → Out (Top × String) :=
   let cfg := tc.base
   fun xop => match xop with
   | .base op =>
     match op with
     | .newTerm lines cols mock => newTop cfg lines cols mock false
     | .mdisp len line col width =>
+      -- the harness asks for cells of the screen as it is now only
+      if top.mock && heldT top.st && (line < 0 || line ≥ top.size.1 || col < 0 || width < 0 || col + width > top.size.2) then
+        pure (top, "skip")
+      else
       match top.screen with
       | some scr =>
         if top.printed then
@@ -357,8 +527,14 @@ def xstep (tc : TCfg) (top : Top) : XOp → Out (Top × String) :=
       let (st, r) ← step cfg top.st op
       let top := ({ top with st := st }).sync
       -- the references to the toplevel instance go last
+      let top := top.swSync tc
       let n := match top.inst with | some i => i.appRefs | none => 0
       let top ← (List.range n).foldlM (fun top _ => if instHeld top then instUnref tc top else pure top) top
+      let top := top.swSync tc
+      -- the further terminals go last, in the order they were made
+      let top := (List.range top.xterms.size).foldl (fun top k =>
+        (List.range (((top.xterms[k]?).map (fun (x : XTerm) => x.appRefs)).getD 0)).foldl (fun top _ =>
+          if top.fail.isSome || !heldX top k then top else xUnref tc top k) top) top
       pure (top, r)
     | _ => do
       -- a root window that has outlived its instance: `_request_later_processing` calls `tickit_watch_later` on the
@@ -368,7 +544,8 @@ def xstep (tc : TCfg) (top : Top) : XOp → Out (Top × String) :=
         | _ => false
       if crash then .ub .mem "root window uses the toplevel instance it has outlived" else
       let (st, r) ← step cfg top.st op
-      let screen := if top.printed && !op.leavesScreen then none else top.screen
+      -- an operation the harness skips reaches nothing
+      let screen := if top.printed && !op.leavesScreen && r ≠ "skip" then none else top.screen
       pure (({ top with st := st, screen := screen }).sync, r)
   | .mprint line col bytes =>
     if !top.mock || !heldT top.st then pure (top, "skip")
@@ -478,6 +655,46 @@ def xstep (tc : TCfg) (top : Top) : XOp → Out (Top × String) :=
               termUnrefI top
             | none => pure top
           onTermTimeout cfg top)
+  | .mresize lines cols =>
+    if !top.mock || !heldT top.st then pure (top, "skip")
+    else do
+      let top := { top with screen := top.screen.map (fun scr => (mockResize scr lines cols).compact) }
+      let top ← termSetSize top lines cols
+      pure (top, s!"ok size={lines}x{cols}")
+  | .xnew =>
+    if top.xterms.size ≥ 8 then pure (top, "skip")
+    else pure ({ top with xterms := top.xterms.push {}, sw := top.sw ++ Array.replicate (top.xterms.size + 2 - top.sw.size) {} }, "ok")
+  | .xref k =>
+    if !heldX top k then pure (top, "skip")
+    else pure ({ top with xterms := top.xterms.modify k (fun x => { x with appRefs := x.appRefs + 1 }) }, "ok")
+  | .xunref k =>
+    if !heldX top k then pure (top, "skip")
+    else
+      let top := xUnref tc top k
+      pure (top, hText top)
+  | .xobs k on =>
+    if !heldX top k then pure (top, "skip")
+    else
+      let top := if on then swObserve top (k + 1) else swUnobserve tc top (k + 1)
+      pure (top, hText top)
+  | .tobs on =>
+    if !heldT top.st then pure (top, "skip")
+    else
+      let top := if on then swObserve top 0 else swUnobserve tc top 0
+      pure (top, hText top)
+  | .winch =>
+    let top := swSignal top
+    pure (top, hText top)
+  | .tsetin =>
+    if !heldT top.st || !top.hasFd then pure (top, "skip")
+    else if !tc.setInputFdClearsTermkey then
+      .ub .mem "tickit_term_set_input_fd: get_termkey() uses the TermKey that has just been destroyed"
+    else pure ({ top with pendingEsc := false, inputDead := false }, "ok fd=1")
+
+/-- One operation; a main terminal the operation has released leaves the list of SIGWINCH observers. -/
+def xstep (tc : TCfg) (top : Top) (xop : XOp) : Out (Top × String) := do
+  let (top, r) ← xstepCore tc top xop
+  pure (top.swSync tc, r)
 
 end Life
 end Tickit
